@@ -77,6 +77,13 @@ TWrite == E.ev = "write" /\ SWrite(E.s) /\ wrote'[E.s] = E.n /\ Keep
 TGot == /\ E.ev = "got" /\ chan[E.c][E.s] # <<>> /\ Head(chan[E.c][E.s]) = <<E.ts, E.tn>>
         /\ CDeliver(E.c, E.s) /\ Keep
 \* (Close asks the server to quit and waits for the answer: the server side of the connection is up by then)
+\* the host's copier had read a record from its stream when Close returned and writes it just afterwards: the
+\* record, counted as gone with the connection, reaches the writer after all (same stream, nothing after it)
+TGotLate == /\ E.ev = "got" /\ cph[E.c] = 5 /\ E.c \notin draining
+            /\ E.ts = E.s /\ <<E.ts, E.tn>> \in lost
+            /\ lost' = lost \ {<<E.ts, E.tn>>}
+            /\ got' = [got EXCEPT ![E.c][E.s] = Append(@, <<E.ts, E.tn>>)]
+            /\ UNCHANGED <<sessVars, dispVars, pipe, wrote, chan, quitVars>> /\ Keep
 TClose == E.ev = "close" /\ sph[E.c] = 4 /\ CClose(E.c) /\ Keep
 TClosed == E.ev = "closed" /\ CCloseEnd(E.c) /\ Keep
 TQuit == E.ev = "quit" /\ (\E c \in Conns : SQuit(c)) /\ Keep
@@ -107,7 +114,7 @@ AheadAlloc == /\ l <= Len(Trace) /\ E.ev \in {"id", "appid"} /\ objconn[E.obj] #
 
 TraceNext ==
   \/ /\ l <= Len(Trace) /\ l' = l + 1
-     /\ (TReset \/ TUp \/ TCall \/ TSrvNew \/ TSrvFail \/ TId \/ TAppId \/ TRet \/ TWrite \/ TGot
+     /\ (TReset \/ TUp \/ TCall \/ TSrvNew \/ TSrvFail \/ TId \/ TAppId \/ TRet \/ TWrite \/ TGot \/ TGotLate
          \/ TClose \/ TClosed \/ TQuit \/ TDoneCh \/ TLoopEnd \/ TEnd)
   \/ SilentClient \/ SilentServer \/ SilentRead \/ AheadAlloc
 TraceSpec == TraceInit /\ [][TraceNext]_tvars
